@@ -1,13 +1,37 @@
-"""C12 - generic merge cells with the 'exc' oracle (see h_merge.py)."""
+"""C12 - well-formed input fails only with the library's own exceptions."""
 from .h_merge import make_cells
 
 PID = 'C12'
-ASSUMPTIONS = []
+ASSUMPTIONS = [
+    'merge part: every message type x every kind of each reference slot (existing / unknown / blank / absent / '
+    'repeated / target = source), against running orders whose stories all carry timing metadata, running orders '
+    'where some stories carry none, and running orders that contain a story / item whose own ID tag is blank',
+    'classification part (UnknownMosFileType rather than KeyError/AttributeError) is decided by the C08 cells; '
+    'non-strict collection merges running to the end by the C09 cells',
+]
 
 
 def bounds(tier):
-    return {'N': 3, 'sources_k': '<=2', 'carried': '<=2', 'id_length': 1, 'id_alphabet': 'U+0020..U+007E'}
+    return {'N': 3, 'sources_k': '<=2', 'carried': '<=2', 'id_length': 1, 'id_alphabet': 'U+0020..U+007E',
+            'untimed_patterns': ['[0]', '[1]', '[0,2]', '[0,1,2]'], 'blank_id_element': 'first story / first item'}
+
+
+def plain(op, story_k, tk, sk, nk):
+    """resolvable references only (for the running-order variations)"""
+    return story_k in (None, 'existing') and tk in (None, 'existing', 'blank') and \
+        (sk is None or all(k == 'existing' for k in sk) and len(sk) <= 1 or sk == ['existing', 'existing'] and False) and \
+        (nk is None or nk == ['fresh'])
+
+
+def some(op, story_k, tk, sk, nk):
+    return story_k in (None, 'existing', 'unknown') and (sk is None or len(sk) == 1 or sk == ['existing', 'existing']) \
+        and (nk is None or len(nk) == 1)
 
 
 def cells(tier):
-    return make_cells(PID, 'exc', tier)
+    out = make_cells(PID, 'exc', tier)
+    for pat in ([0], [1], [0, 2], [0, 1, 2]):
+        out += make_cells(PID, 'exc', tier, thin=plain, extra={'untimed': pat}, suffix='untimed-' + ''.join(map(str, pat)))
+    out += make_cells(PID, 'exc', tier, thin=some, extra={'blank_first': True}, suffix='blank-id-first')
+    out += make_cells(PID, 'exc', tier, thin=plain, extra={'blank_first': True, 'untimed': [1]}, suffix='blank-id-first+untimed-1')
+    return out
